@@ -105,7 +105,7 @@ func c06r1(r *R) {
 	key := c.Global("pkg/metadata", "FingerproxyContextKey")
 	if o2.Check(key != nil, "context key not found") {
 		for _, w := range globalWriters(c.FuncsIn(), key) {
-			o2.AtI(w.Instr).Check(w.Fn.Name() == "init", "the context key is reassigned in %s", funcName(w.Fn))
+			o2.AtI(w.Instr).Check(isInitFn(w.Fn), "the context key is reassigned in %s", funcName(w.Fn))
 		}
 	}
 	r.assume("S6: context.WithValue lookups return the innermost value for a key")
@@ -522,7 +522,7 @@ func c06r6(r *R) {
 				continue
 			}
 			for _, w := range globalWriters(c.FuncsIn(), g) {
-				if w.Fn.Name() == "init" && w.Fn.Parent() == nil {
+				if isInitFn(w.Fn) {
 					continue
 				}
 				if w.Fn.Name() == "main" && w.Fn.Parent() == nil && w.Fn.Pkg.Pkg.Name() == "main" {
@@ -578,7 +578,7 @@ func c06r6(r *R) {
 			}
 			// maps: allowed only when never written outside init (lookup tables)
 			for _, w := range globalWriters(c.FuncsIn(), g) {
-				if !(w.Fn.Name() == "init" && w.Fn.Parent() == nil) {
+				if !isInitFn(w.Fn) {
 					o.AtI(w.Instr).Fail("package-level %s %s.%s is modified in %s", kind, p.Pkg.Name(), nm, funcName(w.Fn))
 				}
 			}
